@@ -39,6 +39,7 @@ type reassembler struct {
 	heap         fragHeap
 	done         bool
 	broken       bool
+	completed    bool
 	creationTime time.Time
 }
 
@@ -82,7 +83,7 @@ func (r *reassembler) process(first, last uint16, more bool, vv buffer.Vectorise
 	r.mu.Lock()
 	defer r.mu.Unlock()
 	consumed := 0
-	if r.done || r.broken {
+	if r.done || r.broken || r.completed {
 		// A concurrent goroutine might have already reassembled
 		// the packet and emptied the heap while this goroutine
 		// was waiting on the mutex. We don't have to do anything in this case.
@@ -107,6 +108,9 @@ func (r *reassembler) process(first, last uint16, more bool, vv buffer.Vectorise
 		r.broken = true
 		return buffer.VectorisedView{}, false, consumed
 	}
+	// The datagram is complete and the heap is empty now; the reassembler is
+	// released by the caller, but another goroutine may already hold it.
+	r.completed = true
 	return res, true, consumed
 }
 
